@@ -4,7 +4,7 @@ from __future__ import annotations
 from . import workload
 from .kernel import POLICIES
 
-ORACLES = ["alone", "reads", "pure", "stable", "progress"]
+ORACLES = ["alone", "reads", "pure", "stable", "progress", "offset"]
 
 # instance configurations for the enumerated part
 CONFIGS = [
@@ -24,7 +24,7 @@ MD = {"c": "md", "d": "en"}
 def _parse_op(cfg, text, first, fs_files, tag):
     op = {"op": "parse", "p": 0, "m": 0 if cfg["matcher"] is not None else None, "text": text, "first": first, "src": cfg["src"]}
     if cfg["src"] == "path":
-        path = "/sim/%s.feature" % tag
+        path = "/simfs/%s.feature" % tag
         fs_files[path] = text
         op["path"] = path
     return op
@@ -129,7 +129,7 @@ def _gen_task(rng, gen_base, ngens, nops, files, tname, small=False):
         if src == "path":
             text = workload.restyle(rng, text)
             op["text"] = text
-            op["path"] = "/sim/%s-%d.feature" % (tname, oi)
+            op["path"] = "/simfs/%s-%d.feature" % (tname, oi)
             files[op["path"]] = text
         ops.append(op)
         labels.append(label)
